@@ -2,6 +2,7 @@ import SFV.Lemmas.ProvGraph
 import SFV.Lemmas.ProvFuel
 import SFV.Lemmas.Avail
 import SFV.Gen.AvailGuards
+import SFV.Gen.ProvGuards
 /-! # C18 — recovery re-runs only failed jobs and producers of lost data
 
 Theorems about the model of `ProvenanceGraph.build_graph` (`SFV/Model/ProvGraph.lean`): the set of tokens the recovery
@@ -115,6 +116,14 @@ theorem self_dependency_needs_more_fuel :
 example : (match buildGraph ⟨fun t => match t with | 4 => [2, 3] | 2 => [1] | 3 => [0] | 1 => [0] | _ => [],
                              fun t => t == 1 || t == 3 || t == 0⟩ 5 [4] with
     | .ok s => s.nodes == [4, 2, 3, 1] | _ => false) = true := by decide
+
+/-- **T** (statement-level tie of the hand-written model to the source): every statement of `build_graph` that `Model/ProvGraph.lean`
+    transcribes is found in the source as the model has it — frontier = deque of the inputs which are nodes from the start, FIFO pop,
+    stop at the job token of a job being recovered and at available tokens, dependees from the provenance table, edge dependee → token,
+    enqueue unless visited (`info_tokens`) or already in the frontier, raise when a lost token has no dependees, a token becomes
+    "visited" only at the end of its own iteration (why `Irrefl` is needed for fuel sufficiency) -/
+theorem gen_build_graph_shape :
+    Gen.provShape = ⟨true, true, true, true, true, true, true, true, true, true, true, true⟩ := rfl
 
 /-! ## what "available" means (model `SFV/Model/Avail.lean`, quantifiers generated from the source) -/
 
